@@ -3,6 +3,8 @@ import XMT.Drv.C02
 import XMT.Drv.C03
 import XMT.Drv.C06
 import XMT.Drv.C07
+import XMT.Drv.C08
+import XMT.Drv.C09
 import XMT.Drv.C10
 import XMT.Drv.C11
 import XMT.Drv.C12
@@ -21,6 +23,8 @@ def dispatch (line : String) : String :=
   | "C03" :: args => XMT.Drv.C03.handle args
   | "C06" :: args => XMT.Drv.C06.handle args
   | "C07" :: args => XMT.Drv.C07.handle args
+  | "C08" :: args => XMT.Drv.C08.handle args
+  | "C09" :: args => XMT.Drv.C09.handle args
   | "C10" :: args => XMT.Drv.C10.handle args
   | "C11" :: args => XMT.Drv.C11.handle args
   | "C12" :: args => XMT.Drv.C12.handle args
